@@ -2,7 +2,11 @@
 """Regenerates MANIFEST.json from checks.json (single source of truth for the check table)."""
 import json, os, subprocess
 ROOT = os.path.dirname(os.path.dirname(os.path.abspath(__file__)))
-cfg = json.load(open(os.path.join(ROOT, "checks.json")))
+import glob
+cfg = json.load(open(os.path.join(ROOT, "cfg", "_defaults.json")))
+cfg["checks"] = {}
+for fp in sorted(glob.glob(os.path.join(ROOT, "cfg", "C*.json"))):
+    cfg["checks"][os.path.basename(fp)[:-5]] = json.load(open(fp))
 props = [json.loads(l) for l in open(os.path.join(ROOT, "properties.jsonl"))]
 hooks = json.load(open(os.path.join(ROOT, "hooks.json")))
 checks = []
